@@ -38,7 +38,7 @@ META = {
 
 def tasks(tier, seed):
     t = []
-    plan = [(3, a, u) for a in range(4) for u in ("range", "any")] + [(4, a, "range") for a in range(4)]
+    plan = [(3, a, u) for a in range(5) for u in ("range", "any")] + [(4, a, "range") for a in range(5)]
     if tier == "thorough":
         plan += [(5, a, "range") for a in range(2)] + [(4, a, "any") for a in range(4)]
     for k, a, u in plan:
@@ -50,6 +50,9 @@ def tasks(tier, seed):
     for i in range(shards):
         t.append((MOD, "hyp", (n // shards, seed * 1_000_003 + i, tier)))
     t.append((MOD, "floor", ()))
+    nt = 4000 if tier == "quick" else 80000
+    for i in range(8):
+        t.append((MOD, "twins", (nt // 8, seed * 1_000_003 + 500 + i)))
     return t
 
 
@@ -69,6 +72,26 @@ def floor(acc):
     mod = sys.modules[MOD]
     for c in FLOOR_CASES:
         harness.process(mod, acc, "floor", c, "floor-of-the-order", isolate=False)
+
+
+def twins(acc, n, seed):
+    """L3: spellings that denote the same set by definition must parse to == objects (the parser is one of the
+    operations whose results C05 speaks of): ~=V.N is >=V.N,==V.* (PEP 440), ==V is >=V,<=V, and !=V, <V, <=V,
+    !=X.* are the complements of ==V, >=V, >V, ==X.*."""
+    mod = sys.modules[MOD]
+    strat = st.fixed_dictionaries({"v": versions.spelled_version(min_len=2), "x": versions.spelled_version(suffix=False, max_len=3)})
+    harness.run_hypothesis(acc, strat, lambda c: harness.process(mod, acc, "twin", c, "L3-twin-spellings"), n, seed)
+
+
+def _twin_pairs(case):
+    v, x = case["v"], case["x"]
+    V = Version(v)
+    out = [("eq", f"=={v}", f">={v},<={v}", False), ("ne", f"!={v}", f"=={v}", True), ("lt", f"<{v}", f">={v}", True), ("le", f"<={v}", f">{v}", True), ("ne-wild", f"!={x}.*", f"=={x}.*", True)]
+    if not (V.is_prerelease or V.is_devrelease):
+        # below its own base release (a pre- or dev-release) V is outside ==prefix.* in the interval reading
+        prefix = (f"{V.epoch}!" if V.epoch else "") + ".".join(map(str, V.release[:-1]))
+        out.append(("compatible", f"~={v}", f">={v},=={prefix}.*", False))
+    return out
 
 
 def _check_result(acc, kind, case, op, r, exp_mask, full, objs, pts_set, pts, salt):
@@ -182,6 +205,20 @@ def evaluate(kind, case, acc):
             r = ~s
             if not (r == P("") and r.is_any()):
                 acc.fail(kind, "floor:complement", case, expected="universal", got=describe(r))
+        return
+    if kind == "twin":
+        from dep_logic.specifiers import parse_version_specifier as P
+
+        for name, ta, tb, complement in _twin_pairs(case):
+            a, b = P(ta), P(tb)
+            if complement:
+                b = ~b
+            acc.oracle_evaluations += 1
+            acc.label(f"twin:{name}")
+            if name == "compatible" and ("post" in str(Version(case["v"])) or Version(case["v"]).epoch):
+                acc.nontriv([ta, tb])
+            if not (a == b and b == a and hash(a) == hash(b)):
+                acc.fail(kind, f"twin:{name}:same-set-by-definition-but-unequal", case, expected=f"parse({ta!r}) == {'~' if complement else ''}parse({tb!r})", got={"a": describe(a), "b": describe(b)})
         return
     leaves = []
     if kind == "cellpair":
